@@ -1,0 +1,6 @@
+//go:build !verif
+
+package tiered
+
+// verifPoint marks a scheduling point of the flush worker; it is a no-op unless built with the tag `verif`.
+func verifPoint(point, key string) {}
